@@ -134,7 +134,10 @@ class AppRun:
         if H.AMB.on and "app" in H.AMB.dims:
             r = H.AMB.rng
             self.ambient = {"tls": url.startswith("ws://") and r.random() < 0.3, "assign": r.choice(["ctor", "ctor", "after-init", "in-on_open"]) if assign == "ctor" else assign,
-                            "trace": r.random() < 0.15}
+                            "trace": r.random() < 0.15,
+                            # descriptor numbers: ordinary, 0 (a daemon that closed its standard streams), above 1024; a transport whose
+                            # recv() returns bytearray
+                            "fd_base": r.choice([10, 10, 10, 0, 1100]), "bytearray_recv": r.random() < 0.12}
             first_ok = bool(plan) and plan[0].get("outcome") == "ok" and plan[0].get("tls_error") is None and plan[0].get("response") is None
             if self.ambient["assign"] == "in-on_open" and ((raising and "on_open" in raising) or not first_ok):
                 # callbacks installed from on_open exist only once a connection has been opened
@@ -266,6 +269,8 @@ class AppRun:
         if self.ambient is not None:
             import logging
             W.enableTrace(bool(self.ambient["trace"]), handler=logging.NullHandler())
+            net.SimSocket.fd_base = self.ambient["fd_base"]
+            net.SimSocket.recv_type = bytearray if self.ambient["bytearray_recv"] else bytes
         cbs = {n: self._wrap_callable(self._cb(n)) for n in self.enabled}
         if self.assign == "ctor":
             kw = dict(cbs)
